@@ -362,22 +362,96 @@ def spellingsOf (cname : String) : List String :=
   (variants.flatMap fun v => seps.flatMap fun s =>
     [String.ofList (joinWith s v), String.ofList (joinWith s v.dropLast)])
 
-/-! ## `SplineGroove.__init__`: the shape checks, in source order -/
+/-! ## `SplineGroove.__init__`: the shape checks, in source order
+
+The third check asks whether the first and the last ordinate lie on the face line `y = 0`.  HOW the source decides that
+(the *face test*) is read by the translator into `Gen.C03.splineFace : FaceTest`, whichever of the two forms is present:
+`np.isclose(y, 0)` (numpy's defaults: absolute `1e-8`) or `np.abs(y) <= <tolerance>` with the tolerance a term over the
+vertex array as given (`1e-9 * np.max(np.ptp(contour_points, axis=0))`: relative to the extent of the contour).  The
+checks below take the face test as a value. -/
+
+/-- terms over the columns of the `(n, 2)` array `contour_points` as handed to the constructor (after `np.asarray`) -/
+inductive FTerm where
+  | nat (n : Nat)
+  | dec (m e : Nat)          -- decimal literal `m · 10^(-e)` (`1e-9`)
+  | colMin (k : Nat)         -- `np.min(contour_points[:, k])`
+  | colMax (k : Nat)         -- `np.max(contour_points[:, k])`
+  | max (a b : FTerm)        -- `np.max` of two terms (`np.max(np.ptp(cp, axis=0))` = the larger of the two column extents)
+  | add (a b : FTerm)
+  | sub (a b : FTerm)
+  | mul (a b : FTerm)
+  | div (a b : FTerm)
+  deriving Repr, DecidableEq, Inhabited
+
+/-- how the source decides that an ordinate lies on the face line `y = 0` -/
+inductive FaceTest where
+  /-- `np.isclose(y, 0)` with numpy's default tolerances (absolute `1e-8`) -/
+  | isclose
+  /-- `np.abs(y) <= tol`, `tol` a term over the vertex array as given -/
+  | within (tol : FTerm)
+  deriving Repr, DecidableEq, Inhabited
 
 inductive SplineCheck where
   | ndim (n : Nat)            -- `if contour_points.ndim != n: raise`
   | cols (n : Nat)            -- `if contour_points.shape[1] != n: raise`
-  | endsOnFace                -- `if not isclose(cp[0, 1], 0) or not isclose(cp[-1, 1], 0): raise`
+  | endsOnFace                -- `if not F(cp[0, 1]) or not F(cp[-1, 1]): raise`, `F` = the face test
   deriving Repr, DecidableEq, Inhabited
 
-/-- a nested-list argument: `ndim` and, for a 2-d array, the rows -/
-def splineAccepts {α : Type} [PyNum α] (cs : List SplineCheck) (ndim : Nat) (rows : List (List α)) : Bool :=
+section spline
+variable {α : Type} [PyNum α]
+
+/-- `np.maximum` on two numbers: NaN propagates (neither comparison holds); over ℝ the third branch is unreachable -/
+def fmax (a b : α) : α := if PyNum.lt a b then b else if PyNum.le b a then a else a + b
+
+def fmin (a b : α) : α := if PyNum.lt b a then b else if PyNum.le a b then a else a + b
+
+/-- `np.max` of a column (`0` for the empty one: unreachable, the `cols` check comes first and needs a row) -/
+def lmax : List α → α
+  | [] => zero
+  | [a] => a
+  | a :: b :: r => fmax a (lmax (b :: r))
+
+def lmin : List α → α
+  | [] => zero
+  | [a] => a
+  | a :: b :: r => fmin a (lmin (b :: r))
+
+/-- `contour_points[:, k]` of a nested-list argument (a missing entry reads as 1: off the face line) -/
+def colOf (k : Nat) (rows : List (List α)) : List α := rows.map fun r => r.getD k (PyNum.nat 1)
+
+def FTerm.eval (rows : List (List α)) : FTerm → α
+  | .nat n => PyNum.nat n
+  | .dec m e => PyNum.dec m e
+  | .colMin k => lmin (colOf k rows)
+  | .colMax k => lmax (colOf k rows)
+  | .max a b => fmax (a.eval rows) (b.eval rows)
+  | .add a b => a.eval rows + b.eval rows
+  | .sub a b => a.eval rows - b.eval rows
+  | .mul a b => a.eval rows * b.eval rows
+  | .div a b => a.eval rows / b.eval rows
+
+/-- the tolerance of the face test for the vertex array `rows` -/
+def FaceTest.tol (ft : FaceTest) (rows : List (List α)) : α :=
+  match ft with
+  | .isclose => PyNum.dec 1 8
+  | .within t => t.eval rows
+
+/-- the face test for the vertex array `rows`, as a predicate on ordinates -/
+def FaceTest.onFace (ft : FaceTest) (rows : List (List α)) (y : α) : Bool :=
+  match ft with
+  | .isclose => GrooveWF.isclose y (zero : α)
+  | .within t => PyNum.le (PyNum.abs y) (t.eval rows)
+
+/-- a nested-list argument: `ndim` and, for a 2-d array, the rows; `ft` = the face test read from the source -/
+def splineAccepts (ft : FaceTest) (cs : List SplineCheck) (ndim : Nat) (rows : List (List α)) : Bool :=
   cs.all fun c => match c with
     | .ndim n => ndim = n
     | .cols n => rows.all (fun r => r.length = n) && !rows.isEmpty
     | .endsOnFace =>
       match rows.head?, rows.getLast? with
-      | some a, some b => isclose (a.getD 1 (PyNum.nat 1)) (zero : α) && isclose (b.getD 1 (PyNum.nat 1)) (zero : α)
+      | some a, some b => ft.onFace rows (a.getD 1 (PyNum.nat 1)) && ft.onFace rows (b.getD 1 (PyNum.nat 1))
       | _, _ => false
+
+end spline
 
 end GrooveWF
